@@ -221,6 +221,63 @@ func runC05(c *core.Ctx) {
 	c.Floor("C05/received-node-hash-is-content-hash", 5)
 	c05Completion(c)
 	c05ChildrenReported(c)
+	c05OneSyncAtATime(c)
+}
+
+// c05OneSyncAtATime: the double-list syncer keeps its frontier (existingNodes, missingHashes,
+// rootHash) in the syncer itself; a sync therefore owns the syncer from the reset of the frontier to
+// its return: StartSyncing locks mutOperation before the reset and releases it only by the deferred
+// unlock. If the lock is dropped while waiting, a second StartSyncing replaces the frontier and the
+// first one reports success for a trie it never completed.
+func c05OneSyncAtATime(c *core.Ctx) {
+	fn := anchorM(c, "data/trie", "doubleListTrieSyncer", "StartSyncing")
+	if fn == nil {
+		return
+	}
+	isMut := func(cc *ssa.CallCommon) bool {
+		if cc == nil || len(cc.Args) == 0 {
+			return false
+		}
+		fa, ok := cc.Args[0].(*ssa.FieldAddr)
+		return ok && core.FieldOfAddr(fa).Name() == "mutOperation"
+	}
+	var lock ssa.Instruction
+	deferred, explicit := 0, 0
+	core.Instrs(fn, func(in ssa.Instruction) {
+		cc := core.CallOf(in)
+		if !isMut(cc) || cc.StaticCallee() == nil {
+			return
+		}
+		switch cc.StaticCallee().Name() {
+		case "Lock":
+			if lock == nil {
+				lock = in
+			}
+		case "Unlock":
+			if _, isDefer := in.(*ssa.Defer); isDefer {
+				deferred++
+			} else {
+				explicit++
+			}
+		}
+	})
+	resetLocked := lock != nil
+	core.Instrs(fn, func(in ssa.Instruction) {
+		switch st := in.(type) {
+		case *ssa.Store:
+			if fa, ok := st.Addr.(*ssa.FieldAddr); ok {
+				switch core.FieldOfAddr(fa).Name() {
+				case "existingNodes", "missingHashes", "rootHash":
+					if lock == nil || !core.DominatesInstr(lock, in) {
+						resetLocked = false
+					}
+				}
+			}
+		}
+	})
+	c.Check(resetLocked && deferred >= 1 && explicit == 0, "C05/one-sync-owns-the-syncer", "doubleListTrieSyncer.StartSyncing", fn.Pos(),
+		"the frontier is reset under mutOperation and the mutex is released only by the deferred unlock",
+		fmt.Sprintf("the per-syncer frontier is not protected for the whole sync (reset under the lock: %v, deferred unlocks: %d, explicit unlocks: %d): an overlapping StartSyncing for another root replaces the frontier and the first call reports success without having stored its trie", resetLocked, deferred, explicit))
 }
 
 // c05Completion: "completes without error => every reachable node is stored" needs every success
